@@ -87,7 +87,9 @@ func genRegisterOp(t *rapid.T, s int, strict bool, profile string) Op {
 		op.URI = genPattern(t, m)
 	}
 	var pol string
-	if profile == "C03" {
+	if profile == "hostile" {
+		pol = pick(t, []string{"", "single", "first", "last", "roundrobin", "random", "foo", "foo", "ROUNDROBIN", "foo"}, "invoke")
+	} else if profile == "C03" {
 		pol = pick(t, []string{"", "single", "first", "last", "roundrobin", "roundrobin", "random", "roundrobin"}, "invoke")
 	} else {
 		pol = pick(t, invokePolicies, "invoke")
@@ -333,7 +335,7 @@ func (g *rpcGen) op(t *rapid.T) Op {
 			if pol != "" {
 				op.Opts = append(op.Opts, KV{"invoke", VStr(pol)})
 			}
-			if r.policy != "" && r.policy != "single" && pol == r.policy && g.alive[s] {
+			if r.policy != "" && r.policy != "single" && pol == r.policy && g.alive[s] && s < len(g.alive) {
 				already := false
 				for _, m := range r.members {
 					if m == s {
